@@ -50,6 +50,19 @@ func raceEngine(args []string) error {
 			return fmt.Errorf("race child: %v: %s", err, out)
 		}
 	}
+	// the child dying of a Go runtime abort inside the code under test (e.g. "concurrent map read and map write")
+	// is the daemon crashing under concurrent load
+	if m := regexp.MustCompile(`(?m)^(fatal error: .*|panic: .*)$`).FindStringIndex(string(out)); m != nil {
+		rest := string(out)[m[0]:]
+		what := strings.SplitN(rest, "\n", 2)[0]
+		var fr []string
+		for _, fm := range regexp.MustCompile(`(?m)^(github\.com/nextdns/nextdns/[^\s(]+)\(`).FindAllStringSubmatch(rest, 4) {
+			fr = append(fr, strings.TrimPrefix(fm[1], "github.com/nextdns/nextdns/"))
+		}
+		if len(fr) > 0 {
+			emit("race", "crash", "stress", itoa(c.n), "=>", "crash", sx(what), strings.Join(fr, "|"))
+		}
+	}
 	files, _ := filepath.Glob(filepath.Join(dir, "race.*"))
 	sigs := map[string]int{}
 	frame := regexp.MustCompile(`^\s+(github\.com/nextdns/nextdns/\S+)\(`)
@@ -210,12 +223,15 @@ func raceChild(d time.Duration) error {
 		time.Sleep(100 * time.Millisecond)
 		r2 := newRng(9)
 		var mu2 sync.Mutex
-		for i := 0; i < 3; i++ {
-			tcp := i == 2
+		for i := 0; i < 6; i++ {
+			tcp := i >= 4
 			spawn(func() {
 				mu2.Lock()
 				name := []string{"a.example", "b.example", "localhost", "4.3.2.10.in-addr.arpa", "dev3.local"}[r2.intn(5)]
 				typ := []int{1, 28, 12}[r2.intn(3)]
+				if r2.coin(40) {
+					typ = r2.intn(65536) // any type, assigned or not, mostly never seen before
+				}
 				id := r2.intn(65536)
 				mu2.Unlock()
 				q := msgSpec{id: id, flags: 0x0100, qs: [][]byte{question(encodeName(name), typ, 1)}}.encode()
